@@ -83,7 +83,8 @@ func init() {
 			"and re-fingerprinted after every later update, at the end of the history and of the case; a third of the histories is BLIND (the monitor retains only event payloads, response-callback Data and values returned by UpdateData, starts from a full data set delivered through the path under test, " +
 			"prefers in-place shapes right after a full update and reads the store for the first time at the end of the history; store clauses are not judged there); each case also drives one function without partial support through failing partial and non-persisting updates; event payloads and callback Data are fingerprinted at delivery (inside the handler); every fourth case runs a second goroutine calling DataCopy during the histories (each result must be a state the writer produced); a third of the cases end with a re-announcement, an entity removal or the removal of the connection, after which all retained values are re-checked; " +
 			"every sixth of the other updates carries its filters in an unusual form (delete filter naming neither selector nor elements, alone or next to the partial filter; filters without cmdControl or with both controls; an empty filter; the two filters swapped; a partial filter with elements; a delete filter with items that carry identifiers; over the wire also a selector of another function), judged by the same clauses only; " +
-			"after every third update of a non-blind history the stack serves an operation that is NOT an update of the function (read request of the peer: full, with selector, with elements, aimed at the client feature; read of the discovery data; RequestRemoteData; the peer subscribes to / unsubscribes from the local store; DataCopy of both stores) and every retained value of the history is re-fingerprinted (changed-by/read/<operation>). " +
+			"after every third update of a non-blind history the stack serves an operation that is NOT an update of the function (read request of the peer: full, with selector, with elements, aimed at the client feature; read of the discovery data; RequestRemoteData; the peer subscribes to / unsubscribes from the local store; DataCopy of both stores) and every retained value of the history is re-fingerprinted (changed-by/read/<operation>); one of these operations is the application itself encoding (json.Marshal) a value it retained. " +
+			"The time values of the items of every generated update come in varied FORMS (x_c11_times.go): a timePeriod keeps the generator's absolute start time in 3 of 10 draws, otherwise it has only an endTime that is a duration literal (3 of 10; the form the wire decoder never produces), only an absolute endTime, durations for both, only a start duration, or is empty; other absoluteOrRelativeTime / duration values are a duration or an absolute time in 3 of 4 draws; none depends on the clock. " +
 			"usecases: histories of 12-20 calls of AddUseCaseSupport/SetUseCaseAvailability/RemoveUseCaseSupport/RemoveAllUseCaseSupports on two entities (one of which is now and then removed and added again), use case replies/notifies of a peer that has three entities (three quarters of them name entities the peer has, had or never announced, with and without device address; the rest is random data), partial discovery notifies that remove such an entity or add it again, and read steps (DeviceRemote.UseCases, Remote/LocalFeatureDataCopyOfType, HasUseCaseSupport, the peer reading use case and discovery data); snapshots of nodeManagementUseCaseData of both sides, the lists returned by UseCases() and the event payloads are retained and re-fingerprinted after EVERY step, reads included. " +
 			"race: the same workloads with three reader goroutines encoding the retained values concurrently (race detector). " +
 			"A case is non-trivial if at least 200 fingerprint re-checks were made on at least 20 retained values and (lists) at least one non-persisting and one failed update were judged and at least two blind histories retained at least 10 values before their first read and at least 10 operations other than updates and 5 updates with unusual filters were executed; (usecases) at least 5 read steps, one of them while the peer's data named an entity the peer did not have; distinct = distinct (part, function, sequence of (path, shape)).",
@@ -97,6 +98,8 @@ func init() {
 			"the concurrent DataCopy reader is judged on fingerprints only: its result must equal a store state the history goroutine (the only writer) read after one of its updates; it is parked during blind histories",
 			"an operation that is not an update of the function (a read served by the stack, a subscription, a change of the peer's or the local entity tree) is 'later' in the sense of the statement: a value handed out before it must have the same fingerprint after it; what the read returns is not judged",
 			"unusual filter forms are generated for the peer (wire) and for the application's own UpdateData calls alike, except a selector of another function's type, which only the peer sends (an application passing a wrongly typed selector is outside the quantifier); what such an update does to the data is not judged, only the clauses 'not persisted / reported as failed => store unchanged' and 'values handed out earlier do not change'",
+			"the form of a time value is input, not expectation: fingerprints are taken of the Go values (a retained value is compared with itself), never of JSON, so the clock-dependent re-expression of an endTime without startTime by the encoder/decoder of timePeriod cannot reach a verdict; what the wire decoder stores for such a value is not judged",
+			"the application encoding (json.Marshal) a value it holds is a read of that value by its owner: no value handed out may change through it",
 			"86 functions of the Generic/NodeManagement features have a list-of-structs data type; 83 support partial updates and form the domain, three (directControlActivityListData, sensingListData, setpointConstraintsListData) have no UpdateList in the library and are pinned as such",
 		},
 		Parts: []rig.Part{
@@ -465,6 +468,7 @@ func c11Teardown(c *rig.Ctx, lw *listWorld, k *c11Keeper, kind string) {
 		for try := 0; try < 4 && len(u.Items) == 0; try++ {
 			u, _ = li.GenUpdate(c.Rand, 0, c02Dom)
 		}
+		c11TimeForms(c, li, &u)
 		if i == 0 {
 			ret, _ := lw.remote.UpdateData(true, fn, li.MkList(rig.CloneItems(u.Items)), nil, nil)
 			k.keep("result", ret, "full update before the teardown")
@@ -714,6 +718,7 @@ func c11RunLists(c *rig.Ctx, lw *listWorld, k *c11Keeper, histories int) (st c11
 		// start state
 		if r.Intn(3) > 0 {
 			u, _ := li.GenUpdate(r, 0, c02Dom)
+			c11TimeForms(c, li, &u)
 			data := li.MkList(rig.CloneItems(u.Items))
 			if remoteStore {
 				ret, _ := lw.remote.UpdateData(true, fn, data, nil, nil)
@@ -738,6 +743,7 @@ func c11RunLists(c *rig.Ctx, lw *listWorld, k *c11Keeper, histories int) (st c11
 			if !ok {
 				continue
 			}
+			c11TimeForms(c, li, &u)
 			before := read()
 			// every sixth step: an update the model cannot apply (through whatever path this history uses)
 			failingShape, nilPayload := false, false
@@ -1040,6 +1046,7 @@ func c11BlindHistory(c *rig.Ctx, lw *listWorld, k *c11Keeper, st *c11Stats, path
 		for try := 0; try < 4 && len(u.Items) == 0; try++ {
 			u, _ = li.GenUpdate(r, 0, c02Dom)
 		}
+		c11TimeForms(c, li, &u)
 		return u
 	}
 
@@ -1088,6 +1095,9 @@ func c11BlindHistory(c *rig.Ctx, lw *listWorld, k *c11Keeper, st *c11Stats, path
 			if u.DelSel >= 0 {
 				u.DelSel = present[r.Intn(len(present))]
 			}
+		}
+		if u.Kind != "full" { // full updates come from fullUpdate, which varied the forms already
+			c11TimeForms(c, li, &u)
 		}
 		c11Nest(c, li, &u)
 		st.shapeSeq = append(st.shapeSeq, ("," + u.Kind)...)
